@@ -152,6 +152,28 @@ def run(ck, m):
                 out.append(c)
         return out
     sites = [(draw_new, {KI}), (animate_new, {KI}), (render_old, {KI, EX}), (anim_old, {KI, EX})]
+    # a subclass that overrides the animation driver only adjusts its arguments: whatever it writes to the terminal itself lies outside the protected
+    # region of the base method it delegates to (an interrupted or failing write there propagates out of draw() and can leave a control string open)
+    n_ov = 0
+    from tiv.constfold import Folder as _Folder
+    _cs_env = _Folder(m.tree("_ctlseqs.py")).env
+    for rel_, q_, fn_ in m.functions():
+        if rel_.startswith("image/") and fn_.name in ("_display_animated",) and not q_.startswith("BaseImage."):
+            n_ov += 1
+            for c in output_calls(fn_, output_aliases(fn_)):
+                used_ = {x.id for a_ in c.args for x in ast.walk(trace(fn_, a_)) if isinstance(x, ast.Name)} | {x.attr for a_ in c.args for x in ast.walk(trace(fn_, a_)) if isinstance(x, ast.Attribute)}
+                strings_ = sorted(n_ for n_ in used_ if isinstance(_cs_env.get(n_), str) and _cs_env[n_].startswith(("\x1b_", "\x1b]", "\x1bP", "\x1bX", "\x1b^")))
+                if not strings_:
+                    continue        # plain text / CSI sequences: complete after any prefix as far as the terminal's parser is concerned
+                cov_ = set()
+                for t_, part_ in try_context(c):
+                    if part_ == "body":
+                        for h_ in t_.handlers:
+                            cov_ |= handler_classes(h_)[1]
+                ck.ob("R2", enclosing_stmt(c), {KI, EX} <= cov_, f"{q_} writes a control string ({strings_}: `{short(c, 60)}`) outside the protected region of the driver it delegates to: Ctrl-C or a stream error during this write "
+                      "propagates out of an animated draw() (which must end silently) with the control string cut short - the terminal swallows what follows, SHOW_CURSOR included", stmt=f"{q_}: {short(c, 60)} protected")
+            ck.ob("R2", fn_, True, "", stmt=f"{q_}: writes nothing outside the protected region")
+    ck.expect(n_ov >= 1, "overrides of _display_animated not found")
     n_w = 0
     for fn, need in sites:
         for c in render_writes(fn):
